@@ -97,6 +97,34 @@ def _c10_absolute_relative_A1_pre(s):
     return len(s) <= 2 and name_ok(s) and s != 'A1'
 
 
+def _c10_absolute_absolute(s: str) -> bool:
+    """
+    pre: 1 <= len(s) <= 2 and 33 <= ord(s[0]) <= 126 and 33 <= ord(s[-1]) <= 126 and ':' not in s and '/' not in s and '%' not in s and '.' not in s and '=' not in s and s != 'A1' and s != 'A'
+    post: _
+    """
+    # every reference spelled absolutely: exact whatever the names share (the open finding needs a RELATIVE spelling)
+    return _pair(s, 'A1', 'abs', 'abs') and _pair(s, 'A', 'abs', 'abs')
+
+
+def _c10_absolute_absolute_pre(s):
+    return len(s) <= 2 and name_ok(s) and s not in ('A1', 'A')
+
+
+def _c10_output_contents_verbatim(v: str) -> bool:
+    """
+    pre: len(v) <= 3 and (len(v) < 1 or 32 <= ord(v[0]) <= 126) and (len(v) < 2 or 32 <= ord(v[1]) <= 126) and (len(v) < 3 or 32 <= ord(v[2]) <= 126)
+    post: _
+    """
+    # the contents of the referenced file are copied verbatim, whatever characters they hold
+    out, n_unresolved, n_unused = resolve('-i A/o.txt:output -j stage0.B/o.txt:output', [HRef('stage0.A/o.txt:output', 0, v),
+                                                                                          HRef('stage0.B/o.txt:output', 0, 'b')])
+    return out == '-i %s -j b' % v and n_unused == 0
+
+
+def _c10_output_contents_verbatim_pre(v):
+    return len(v) <= 3 and all(' ' <= c <= '~' for c in v)
+
+
 def _c10_output_contents_A(s: str) -> bool:
     """
     pre: 1 <= len(s) <= 2 and 33 <= ord(s[0]) <= 126 and 33 <= ord(s[-1]) <= 126 and ':' not in s and '/' not in s and '%' not in s and '.' not in s and '=' not in s and s != 'A'
@@ -169,3 +197,5 @@ def sweep(mod):
               '_c10_output_contents_A', '_c10_same_name_two_stages', '_c10_unused_and_undeclared_reported'):
         yield n, s2
     yield '_c10_literal_text_untouched', s3
+    yield '_c10_absolute_absolute', s2
+    yield '_c10_output_contents_verbatim', [(x,) for x in _strings(3, ['a', chr(92), '1', 'g', '&', '$'])]
